@@ -8,9 +8,19 @@ use adlt::plugins::export::ExportPlugin;
 use adlt::plugins::plugin::Plugin;
 use adlt::utils::remote_utils::{match_filters, process_stream_new_msgs, StreamContext};
 use adlt::utils::DltMessageIterator;
+use adlt::utils::remote_types::{self, BinType};
 use std::cell::{Cell, RefCell};
+use std::io::{BufRead, BufReader, Write};
+use std::net::TcpStream;
+use std::process::{Child, Command, Stdio};
 use std::sync::atomic::{AtomicU64, Ordering};
+use std::time::{Duration, Instant};
+use tungstenite::stream::MaybeTlsStream;
+use tungstenite::{Message, WebSocket};
 use vharness::*;
+
+const BINCODE_CONFIG: bincode::config::Configuration<bincode::config::LittleEndian, bincode::config::Fixint, bincode::config::NoLimit> =
+    bincode::config::legacy();
 
 // ---------------------------------------------------------------- case description
 #[derive(Clone, Debug)]
@@ -34,6 +44,9 @@ struct CaseIn {
     handle: bool,
     from_ms: Option<u64>,
     to_ms: Option<u64>,
+    /// additionally: the messages as a file opened by the real `adlt remote`, an all-pass stream, and a
+    /// `stream_search` with this filter set (the search constructor of src/bin/adlt/remote.rs)
+    ws: bool,
 }
 const N_LCS: u32 = 3;
 fn lc_time(g: u32) -> u64 {
@@ -103,7 +116,8 @@ fn case_json(c: &CaseIn) -> Value {
         "msgs": c.msgs.iter().map(|m| json!({"ecu": m.ecu, "ext": m.ext.map(|(a, c)| vec![a, c]), "lc": m.lc, "rt": m.rt})).collect::<Vec<_>>(),
         "budget": c.budget, "offset": c.offset, "chunk": c.chunk,
         "export": {"enabled": c.exp_enabled, "to_keep": c.to_keep.iter().map(|k| vec![k.0 as u64, k.1, k.2]).collect::<Vec<_>>(),
-                   "handle": c.handle, "from_ms": c.from_ms, "to_ms": c.to_ms}
+                   "handle": c.handle, "from_ms": c.from_ms, "to_ms": c.to_ms},
+        "ws": c.ws
     })
 }
 fn case_from_json(v: &Value) -> CaseIn {
@@ -131,6 +145,7 @@ fn case_from_json(v: &Value) -> CaseIn {
         handle: v["export"]["handle"].as_bool().unwrap_or(false),
         from_ms: v["export"]["from_ms"].as_u64(),
         to_ms: v["export"]["to_ms"].as_u64(),
+        ws: v["ws"].as_bool().unwrap_or(false),
     }
 }
 
@@ -150,8 +165,16 @@ fn run_stream(filters: &[Filter], msgs: &[DltMessage], budget: Option<u64>) -> S
     let got: Vec<DltMessage>;
     let result;
     match budget {
+        None if msgs.len() % 3 == 0 => {
+            // as convert does: a bounded channel drained by another thread
+            let (tx2, rx2) = std::sync::mpsc::sync_channel::<DltMessage>(1);
+            let consumer = std::thread::spawn(move || rx2.iter().collect::<Vec<DltMessage>>());
+            result = filter_as_streams(filters, &rx, &|m| tx2.send(m)).ok();
+            drop(tx2);
+            got = consumer.join().unwrap();
+        }
         None => {
-            // a real channel as output, as convert does
+            // an unbounded channel as output
             let (tx2, rx2) = std::sync::mpsc::channel::<DltMessage>();
             result = filter_as_streams(filters, &rx, &|m| tx2.send(m)).ok();
             drop(tx2);
@@ -285,6 +308,162 @@ fn run_export(dir: &std::path::Path, c: &CaseIn, filters_json: &[Value], msgs: &
     ExportRun { panicked, written, intact, nexp, nproc, exported }
 }
 
+// ---------------------------------------------------------------- the search constructor, over the websocket
+pub struct Server {
+    child: Child,
+    pub port: u16,
+}
+impl Server {
+    pub fn start() -> Option<Server> {
+        let bin = std::env::var("VERIF_ADLT_BIN").ok()?;
+        if !std::path::Path::new(&bin).exists() {
+            return None;
+        }
+        for _ in 0..20 {
+            let port = portpicker::pick_unused_port()?;
+            let mut child = Command::new(&bin).args(["remote", "-p", &format!("{}", port)]).stdin(Stdio::null()).stdout(Stdio::piped()).stderr(Stdio::null()).spawn().ok()?;
+            let out = child.stdout.take().unwrap();
+            let mut rd = BufReader::new(out);
+            let mut line = String::new();
+            let _ = rd.read_line(&mut line);
+            if line.contains("remote server listening") {
+                std::thread::spawn(move || {
+                    let mut l = String::new();
+                    while rd.read_line(&mut l).map(|n| n > 0).unwrap_or(false) {
+                        l.clear();
+                    }
+                });
+                return Some(Server { child, port });
+            }
+            let _ = child.kill();
+            let _ = child.wait();
+        }
+        None
+    }
+}
+impl Drop for Server {
+    fn drop(&mut self) {
+        let _ = self.child.kill();
+        let _ = self.child.wait();
+    }
+}
+enum Ev {
+    Text(String),
+    FileInfo(u32),
+    Other,
+}
+struct Client {
+    ws: WebSocket<MaybeTlsStream<TcpStream>>,
+    file_infos: Vec<u32>,
+}
+impl Client {
+    fn connect(port: u16) -> Result<Client, String> {
+        let t0 = Instant::now();
+        loop {
+            match tungstenite::client::connect(format!("ws://127.0.0.1:{}", port)) {
+                Ok((ws, _)) => {
+                    if let MaybeTlsStream::Plain(s) = ws.get_ref() {
+                        s.set_read_timeout(Some(Duration::from_millis(20_000))).unwrap();
+                        s.set_nodelay(true).unwrap();
+                    }
+                    return Ok(Client { ws, file_infos: vec![] });
+                }
+                Err(e) => {
+                    if t0.elapsed() > Duration::from_secs(10) {
+                        return Err(format!("cannot connect: {:?}", e));
+                    }
+                    std::thread::sleep(Duration::from_millis(10));
+                }
+            }
+        }
+    }
+    fn read(&mut self) -> Result<Ev, String> {
+        match self.ws.read_message().map_err(|e| format!("read: {:?}", e))? {
+            Message::Text(t) => Ok(Ev::Text(t)),
+            Message::Binary(d) => match bincode::decode_from_slice::<remote_types::BinType, _>(&d, BINCODE_CONFIG) {
+                Ok((BinType::FileInfo(f), _)) => {
+                    self.file_infos.push(f.nr_msgs);
+                    Ok(Ev::FileInfo(f.nr_msgs))
+                }
+                _ => Ok(Ev::Other),
+            },
+            _ => Ok(Ev::Other),
+        }
+    }
+    fn cmd(&mut self, s: &str, prefixes: &[&str]) -> Result<String, String> {
+        self.ws.write_message(Message::Text(s.to_string())).map_err(|e| format!("send: {:?}", e))?;
+        loop {
+            if let Ev::Text(t) = self.read()? {
+                if prefixes.iter().any(|p| t.starts_with(p)) {
+                    return Ok(t);
+                }
+            }
+        }
+    }
+    fn sync(&mut self, n: usize) -> Result<(), String> {
+        for _ in 0..n {
+            self.cmd("resume", &["ok: resume", "err: resume"])?;
+        }
+        Ok(())
+    }
+    /// the server announces nr_msgs == n on the last batch and once more when the parser threads have finished
+    fn wait_finished(&mut self, n: u32) -> Result<(), String> {
+        let t0 = Instant::now();
+        while self.file_infos.iter().filter(|x| **x == n).count() < 2 {
+            if t0.elapsed() > Duration::from_secs(60) {
+                return Err("file not completely loaded after 60 s".into());
+            }
+            self.sync(1)?;
+        }
+        Ok(())
+    }
+}
+/// positions (in an all-pass stream over the file) that `stream_search` reports for the filter set
+fn ws_search(port: u16, dir: &std::path::Path, msgs: &[DltMessage], filters_json: &[Value]) -> Result<Vec<u64>, String> {
+    let path = dir.join(format!("ws_{}.dlt", FILE_NO.fetch_add(1, Ordering::Relaxed)));
+    {
+        let mut f = std::io::BufWriter::new(std::fs::File::create(&path).map_err(|e| e.to_string())?);
+        for m in msgs {
+            m.to_write(&mut f).map_err(|e| format!("{:?}", e))?;
+        }
+        f.flush().map_err(|e| e.to_string())?;
+    }
+    let n = msgs.len();
+    let mut cl = Client::connect(port)?;
+    let r = cl.cmd(&format!("open {{\"sort\":false,\"files\":[{}]}}", json!(path.to_str().unwrap())), &["ok: open", "err: open"])?;
+    if !r.starts_with("ok: open") {
+        return Err(format!("open: {}", r));
+    }
+    cl.wait_finished(n as u32)?;
+    cl.sync(2)?;
+    let js = json!({"window": [0, n + 5], "binary": true, "filters": [{"type": 0}]});
+    let r = cl.cmd(&format!("stream {}", js), &["ok: stream", "err: stream"])?;
+    let id = r.find("{\"id\":").and_then(|p| r[p + 6..].chars().take_while(|c| c.is_ascii_digit()).collect::<String>().parse::<u32>().ok()).ok_or(format!("stream: {}", r))?;
+    cl.sync(3)?;
+    let js = json!({"start_idx": 0, "max_results": n + 5, "filters": filters_json});
+    let r = cl.cmd(&format!("stream_search {} {}", id, js), &["ok: stream_search", "err: stream_search"])?;
+    if !r.starts_with("ok:") {
+        return Err(format!("stream_search: {}", r));
+    }
+    let v: Value = serde_json::from_str(&r[r.find('=').ok_or("no =")? + 1..]).map_err(|e| format!("{} in {}", e, r))?;
+    let idxs: Vec<u64> = v["search_idxs"].as_array().ok_or(format!("no search_idxs in {}", r))?.iter().map(|x| x.as_u64().unwrap_or(u64::MAX)).collect();
+    let _ = cl.cmd(&format!("stop {}", id), &["ok: stop", "err: stop"]);
+    let _ = cl.cmd("close", &["ok: 'close'", "err: close"]);
+    let _ = std::fs::remove_file(&path);
+    Ok(idxs)
+}
+static SERVER: std::sync::Mutex<Option<Option<Server>>> = std::sync::Mutex::new(None);
+fn server_port() -> Option<u16> {
+    let mut g = SERVER.lock().unwrap();
+    if g.is_none() {
+        *g = Some(Server::start());
+    }
+    g.as_ref().unwrap().as_ref().map(|s| s.port)
+}
+fn server_stop() {
+    *SERVER.lock().unwrap() = None;
+}
+
 // ---------------------------------------------------------------- one case
 struct FInfo {
     kind: u8,
@@ -383,6 +562,9 @@ fn record(sink: &mut Sink, tmp: &std::path::Path, c: CaseIn, extra_tags: &[&str]
         let set_rel = run_set(&rel_json, &msgs2, c2.offset, c2.chunk);
         (st, st_nobudget, set, ex, st_rel, set_rel)
     }));
+    // the search constructor of the bin crate: only through the real server
+    let ws_applicable = c.ws && n >= 1 && !c.filters.iter().any(|f| f.get("lifecycles").is_some());
+    let search: Option<Result<Vec<u64>, String>> = if ws_applicable { server_port().map(|port| ws_search(port, tmp, &msgs, &filters_json)) } else { None };
 
     let fail = |cl: &str, d: String| Verdict::Fail { clause: cl.into(), detail: d };
     let mut tags: Vec<String> = extra_tags.iter().map(|s| s.to_string()).collect();
@@ -407,6 +589,11 @@ fn record(sink: &mut Sink, tmp: &std::path::Path, c: CaseIn, extra_tags: &[&str]
                         None => *id as u64,
                     };
                     O::T(vec![O::T(ex.written.iter().map(|i| O::n(*i)).collect()), O::n(ex.nexp), O::n(ex.nproc), O::T(ex.exported.iter().map(|i| O::n(canon(i))).collect())])
+                },
+                match &search {
+                    None => O::T(vec![]),
+                    Some(Ok(idxs)) => O::T(vec![O::T(idxs.iter().map(|i| O::n(*i)).collect())]),
+                    Some(Err(_)) => O::T(vec![O::L(1)]),
                 },
             ]);
             // ---- oracle: the property text evaluated directly
@@ -458,6 +645,17 @@ fn record(sink: &mut Sink, tmp: &std::path::Path, c: CaseIn, extra_tags: &[&str]
                     if s != st_nb.fwd {
                         return fail("impls_agree", format!("stream {:?} set {:?}", st_nb.fwd, s));
                     }
+                }
+                // search over the websocket: same rule (positions in an all-pass stream = positions in the file)
+                match &search {
+                    Some(Err(e)) => return fail("search_answers", e.clone()),
+                    Some(Ok(idxs)) => {
+                        let want: Vec<u64> = (0..n).filter(|m| kept_set[*m]).map(|m| m as u64).collect();
+                        if *idxs != want {
+                            return fail("search_set_rule", format!("stream_search {:?}, rule {:?}", idxs, want));
+                        }
+                    }
+                    None => {}
                 }
                 // disabled and marker filters have no effect
                 if st_rel.fwd != st_nb.fwd || st_rel.result != st_nb.result {
@@ -535,7 +733,7 @@ fn record(sink: &mut Sink, tmp: &std::path::Path, c: CaseIn, extra_tags: &[&str]
     let on = |o: Option<u64>| copt(o.map(|x| x.to_string()));
     let cb = |v: Vec<bool>| clist(&v.iter().map(|b| cbool(*b)).collect::<Vec<_>>());
     let input_coq = format!(
-        "(mkCase {} {} {} {} {} {} {} {} {} {} {} {} {} {})",
+        "(mkCase {} {} {} {} {} {} {} {} {} {} {} {} {} {} {})",
         clist(&frows),
         n,
         on(c.budget),
@@ -549,7 +747,8 @@ fn record(sink: &mut Sink, tmp: &std::path::Path, c: CaseIn, extra_tags: &[&str]
         cbool(c.handle),
         cnums(&c.msgs.iter().map(|m| m.lc).collect::<Vec<_>>()),
         cb(c.msgs.iter().map(|m| m.lc < N_LCS).collect()),
-        clist(&c.to_keep.iter().map(|e| cb(c.msgs.iter().map(|m| keeps(e, m)).collect())).collect::<Vec<_>>())
+        clist(&c.to_keep.iter().map(|e| cb(c.msgs.iter().map(|m| keeps(e, m)).collect())).collect::<Vec<_>>()),
+        cbool(search.is_some())
     );
     // the meaning Exec/C12.v gives to the plugin's own lifecycle filters, checked against the real matcher
     let mut lc_filter_bad = false;
@@ -596,6 +795,11 @@ fn record(sink: &mut Sink, tmp: &std::path::Path, c: CaseIn, extra_tags: &[&str]
         if ex.panicked.is_some() {
             tags.push("export_unknown_lifecycle_panic".into());
         }
+    }
+    if search.is_some() {
+        tags.push("ws_search".into());
+    } else if c.ws {
+        tags.push("ws_search_skipped".into());
     }
     if lc_filter_bad {
         tags.push("lc_filter_not_as_assumed".into());
@@ -719,7 +923,14 @@ fn gen_case(rng: &mut Rng, big: bool) -> CaseIn {
     let exp_enabled = !rng.chance(1, 12);
     let from_ms = if rng.chance(1, 3) { Some(rng.below(20)) } else { None };
     let to_ms = if rng.chance(1, 3) { Some(rng.below(22)) } else { None };
-    CaseIn { filters, msgs, budget, offset, chunk, exp_enabled, to_keep, handle, from_ms, to_ms }
+    let ws = nm >= 1 && rng.chance(1, if big { 40 } else { 10 });
+    if ws {
+        for f in filters.iter_mut() {
+            // lifecycle ids are assigned by the server: no lifecycle criterion in searches
+            f.as_object_mut().unwrap().remove("lifecycles");
+        }
+    }
+    CaseIn { filters, msgs, budget, offset, chunk, exp_enabled, to_keep, handle, from_ms, to_ms, ws }
 }
 
 fn simple_msgs() -> Vec<MsgSpec> {
@@ -743,6 +954,7 @@ fn corpus(sink: &mut Sink, tmp: &std::path::Path) {
         exp_enabled: true,
         to_keep: vec![],
         handle: false,
+        ws: false,
         from_ms: None,
         to_ms: None,
     };
@@ -810,6 +1022,16 @@ fn corpus(sink: &mut Sink, tmp: &std::path::Path) {
     let mut c = base(vec![json!({"type":2})]);
     c.offset = 5;
     record(sink, tmp, c, &["corpus"]);
+    // long streams: rayon really splits the work in process_stream_new_msgs; order must survive
+    for (nmsg, seed) in [(2000u64, 7u64), (1500, 8)] {
+        let mut rng = Rng::new(seed);
+        let mut c = base(vec![json!({"type":0,"ecu":"EC00"}), json!({"type":0,"ecu":"EC01"}), json!({"type":1,"apid":"APP1"}), json!({"type":3,"ctid":"CTX0"})]);
+        c.msgs = (0..nmsg)
+            .map(|i| MsgSpec { ecu: rng.below(3) as u8, ext: if rng.chance(1, 6) { None } else { Some((rng.below(3) as u8, rng.below(2) as u8)) }, lc: 0, rt: i })
+            .collect();
+        c.offset = 17;
+        record(sink, tmp, c, &["corpus", "long_stream"]);
+    }
     // empty stream
     let mut c = base(vec![json!({"type":0}), json!({"type":1})]);
     c.msgs = vec![];
@@ -848,7 +1070,9 @@ fn exhaustive(sink: &mut Sink, tmp: &std::path::Path, max: usize) {
                 chunk: 1 << 30,
                 exp_enabled: true,
                 to_keep: vec![],
-        handle: false,
+                handle: false,
+                // the search constructor must drop disabled filters of every kind
+                ws: (!a.1 || !b.1) && !a.2 && !b.2,
                 from_ms: None,
                 to_ms: None,
             };
@@ -859,12 +1083,22 @@ fn exhaustive(sink: &mut Sink, tmp: &std::path::Path, max: usize) {
 }
 
 fn main() {
+    // the server child must not outlive the harness, whatever happens
+    let r = std::panic::catch_unwind(real_main);
+    server_stop();
+    if r.is_err() {
+        std::process::exit(101);
+    }
+}
+
+fn real_main() {
     let a = parse_args();
     let mut sink = Sink::new("C12", &a.out);
     let tmp = tempfile::Builder::new().prefix("c12_").tempdir().unwrap();
     if let Some(p) = &a.replay {
         let v = read_replay(p);
         record(&mut sink, tmp.path(), case_from_json(&v["case"]), &["replay"]);
+        server_stop();
         sink.finish();
         return;
     }
@@ -882,5 +1116,6 @@ fn main() {
         let c = gen_case(&mut rng, a.tier != "quick");
         record(&mut sink, tmp.path(), c, &[]);
     }
+    server_stop();
     sink.finish();
 }
